@@ -273,7 +273,7 @@ class World:
         closed = c._close_pending or c._state in END_STATES
         code = -1
         if closed:
-            code = c._close_event.error_code if c._close_event is not None else -3
+            code = int(c._close_event.error_code) if c._close_event is not None else -3
         out += [int(c._crypto_retransmitted), int(c._state != QuicConnectionState.FIRSTFLIGHT), code, self.ms(c._close_at),
                 int(c._peer_cid.sequence_number is not None), self.cid(c._peer_cid.cid), self.cid(c._remote_initial_source_connection_id),
                 int(c._spin_bit), c._spin_highest_pn]
@@ -499,6 +499,45 @@ class World:
                                      % (drops or "no drop record", "; ".join(T.digest_diff(before, after)))))
         return impl, model, problems, (drops[0] if drops else ("received" if recvd else "ignored"))
 
+    def deliver_many(self, bs):
+        """several packets in ONE datagram -> (impl tokens, model tokens, what-list): a verdict per packet, the state after the last"""
+        conn, R = self.conn, self.R
+        self.k += 1
+        self.pair.clock.advance_to(self.base + self.k * DT)
+        now_ms = int(round(self.k * DT * 1000))
+        q = T._qev(R)
+        nq = len(q)
+        d0 = self.delivered[0]
+        R.receive_datagram(b"".join(b["data"] for b in bs), self.P.addr)
+        recs = [e for e in list(q)[nq:] if e["name"] in ("transport:packet_dropped", "transport:packet_received")]
+        from aioquic.quic.connection import END_STATES
+        closed = conn._close_pending or conn._state in END_STATES
+        n_recv = sum(1 for e in recs if e["name"] == "transport:packet_received")
+        verdicts, whats = [], []
+        for i, e in enumerate(recs):
+            if e["name"] == "transport:packet_dropped":
+                trig = e["data"].get("trigger")
+                verdicts.append({"key_unavailable": 1, "payload_decrypt_error": 2}.get(trig, 70))
+                whats.append(trig)
+            else:
+                last = i == len(recs) - 1
+                verdicts.append(4 if not (closed and last) else (5 if self.delivered[0] - d0 == n_recv else 3))
+                whats.append("received")
+        while len(verdicts) < len(bs):                     # nothing was logged for them: the call had returned before
+            verdicts.append(0)
+            whats.append("ignored")
+        verdicts = verdicts[:len(bs)] if len(verdicts) == len(bs) else verdicts + [99]
+        while True:
+            if R.next_event() is None:
+                break
+        idle_ms = int(round(conn._idle_timeout() * 1000))
+        impl = verdicts[:-1] + [verdicts[-1]] + self.alpha() + [self.delivered[0], self.resched[0]]
+        model = []
+        for j, b in enumerate(bs):
+            model += [3 if j < len(bs) - 1 else 1, b["epoch"], b["auth"], b["gen"], b["phase"], b["first"], b["pn"], b["pnl"], b["scid"], b["elic"], b["err"],
+                      b["fx"], idle_ms, now_ms]
+        return impl, model, whats
+
     def pump(self):
         out = self.R.datagrams_to_send()
         sent_hs = any(_has_handshake(data) for data, _ in out)
@@ -532,6 +571,73 @@ def _has_handshake(data):
     return False
 
 
+def _run(w, ops, skip_inauthentic=False):
+    """deliver the ops to the world's connection.  skip_inauthentic: the packets the puppet knows to be inauthentic are built (so
+    that every later packet is bit-identical) but NOT delivered; their time slot stays empty."""
+    impl, hist, problems, events = [], [], [], []
+    model = list(w.alpha())
+    probe = False
+    for op in ops:
+        if op[0] == "pump":
+            sent_hs, toks = w.pump()
+            if sent_hs:
+                model += [2]
+                impl += toks
+                hist.append("pump:handshake-sent")
+            else:
+                hist.append("pump:nothing")
+            break
+        if op[0] == "co":
+            subs = []
+            for so in op[1]:
+                b, inauth = w.make(so)
+                if b is None:
+                    hist.append("%s:unbuildable" % so[0])
+                else:
+                    subs.append((so, b, inauth))
+            subs = [x for x in subs if x[1]["epoch"] != 3] + [x for x in subs if x[1]["epoch"] == 3][:1]     # a short header ends the datagram
+            any_in = any(x[2] for x in subs)
+            if skip_inauthentic:
+                subs = [x for x in subs if not x[2]]
+            if not subs:
+                w.k += 1
+                w.pair.clock.advance_to(w.base + w.k * DT)
+                continue
+            retx0 = w.conn._crypto_retransmitted
+            i, m, whats = w.deliver_many([x[1] for x in subs])
+            if any_in and w.conn._crypto_retransmitted != retx0:
+                probe = True
+            impl += i
+            model += m
+            hist.append("coalesced-%d" % len(subs))
+            for (so, b, _), what in zip(subs, whats):
+                hist.append("co:%s/%s/%s" % (so[0], EPOCHS[b["epoch"]], what))
+            continue
+        b, inauth = w.make(op)
+        if b is None:
+            hist.append("%s:unbuildable" % op[0])
+            continue
+        if skip_inauthentic and inauth:
+            w.k += 1
+            w.pair.clock.advance_to(w.base + w.k * DT)
+            continue
+        retx0 = w.conn._crypto_retransmitted
+        i, m, pr, what = w.deliver(b, bool(inauth))
+        if inauth and w.conn._crypto_retransmitted != retx0:
+            probe = True
+        impl += i
+        model += m
+        problems += [(r, "op %s: %s" % (op, t)) for r, t in pr]
+        hist.append("%s/%s/%s" % (op[0], EPOCHS[b["epoch"]], what))
+    return impl, model, problems, hist, probe
+
+
+def _final(w):
+    return {"state": w.alpha() + [w.delivered[0], w.resched[0]],
+            "protection": T.crypto_digest(w.conn, deep=True, ident=False),
+            "connection": T.digest(w.conn, False, ident=False, skip=T.SKIP_LOG | frozenset(SKIP_ATTRS))}
+
+
 def trace(C, case):
     """-> (impl tokens, model tokens, problems [(rule, text)], histogram keys)"""
     key = json.dumps(case, sort_keys=True)
@@ -544,27 +650,24 @@ def trace(C, case):
         res = (["skipped"], None, [], ["skipped:%s" % e])
         _MEMO[key] = res
         return res
-    impl, hist, problems = [], [], []
-    model = list(w.alpha())
-    for op in case["ops"]:
-        if op[0] == "pump":
-            sent_hs, toks = w.pump()
-            if sent_hs:
-                model += [2]
-                impl += toks
-                hist.append("pump:handshake-sent")
-            else:
-                hist.append("pump:nothing")
-            break
-        b, inauth = w.make(op)
-        if b is None:
-            hist.append("%s:unbuildable" % op[0])
-            continue
-        i, m, pr, what = w.deliver(b, bool(inauth))
-        impl += i
-        model += m
-        problems += [(r, "op %s: %s" % (op, t)) for r, t in pr]
-        hist.append("%s/%s/%s" % (op[0], EPOCHS[b["epoch"]], what))
+    impl, model, problems, hist, probe = _run(w, case["ops"])
+    # no LATER effect, on the implementation alone: the same connection, the same packets at the same times, WITHOUT the
+    # inauthentic ones -> the same final state (abstraction, protection objects by behaviour, every attribute by value)
+    n_in = sum(1 for o in case["ops"] for x in (o[1] if o[0] == "co" else [o]) if x[0] in ("flip", "forge", "wrongkey"))
+    if n_in and not problems and not case.get("no_control"):
+        if probe:
+            hist.append("control:skipped-client-probe")
+        else:
+            w2 = World(case, C._aq_suite)
+            _run(w2, case["ops"], skip_inauthentic=True)
+            fa, fb = _final(w), _final(w2)
+            hist.append("control:compared")
+            for part in ("state", "protection", "connection"):
+                if fa[part] != fb[part]:
+                    diff = T.digest_diff(fb[part], fa[part]) if part != "state" else ["abstraction %s -> %s" % (fb[part], fa[part])]
+                    problems.append(("later-effect", "the final %s differs from the run in which the %d inauthentic packet(s) were not delivered: %s"
+                                     % (part, n_in, "; ".join(diff)[:900])))
+                    break
     res = (impl, model, problems, hist)
     _MEMO[key] = res
     while len(_MEMO) > 64:
@@ -684,6 +787,19 @@ def gen_cases(C, rng, n, thorough=False):
                 ["pkt", "initial", {"dpn": 0}], ["pkt", "1rtt", {"dpn": 1, "pay": "hsdone"}], ["pkt", "handshake", {"dpn": 1}],
                 ["forge", "handshake", 0, 60], ["pkt", "1rtt", {"dpn": 1, "pay": "hsdone"}], ["pump"]]
     cases.append(c)
+    # coalesced datagrams: an inauthentic packet in front must not keep the genuine rest from being processed (`continue`), a
+    # reserved-bits close ends the datagram (`return`)
+    c = base("smid", "server")
+    c["ops"] = [["co", [["flip", "initial", {"dpn": 1}, "tag", 0], ["pkt", "handshake", {"dpn": 0}], ["garbage", "1rtt"]]],
+                ["co", [["garbage", "0rtt"], ["pkt", "initial", {"dpn": 1}], ["pkt", "handshake", {"dpn": 1, "res": 2}], ["pkt", "handshake", {"dpn": 2}]]],
+                ["pkt", "handshake", {"dpn": 1}]]
+    cases.append(c)
+    for recv in ("client", "server"):
+        c = base("post", recv)
+        c["prefix"] = ["P.ku"]
+        c["ops"] = [["co", [["pkt", "handshake", {"dpn": 0}], ["forge", "initial", 0, 40], ["pkt", "1rtt", {"dpn": 1, "gen": 1}]]],
+                    ["co", [["garbage", "0rtt"], ["flip", "1rtt", {"dpn": 1}, "body", 5]]], ["pkt", "1rtt", {"dpn": 1}]]
+        cases.append(c)
     # the MAX_ACK_RANGES rule: 40 packets leaving gaps
     c = base("post", "server")
     c["prefix"] = []
@@ -709,6 +825,12 @@ def gen_cases(C, rng, n, thorough=False):
         if c["state"] in ("cfirst", "smid"):
             for _ in range(rng.randrange(4)):
                 ops.insert(rng.randrange(len(ops) + 1), ["genuine", rng.randrange(3)])
+        j = 0
+        while j < len(ops) - 1:                                            # some neighbours travel in one datagram
+            if rng.random() < 0.18:
+                m = rng.choice([2, 2, 3])
+                ops[j:j + m] = [["co", ops[j:j + m]]]
+            j += 1
         if c["state"] in ("cfirst", "cunconf") and rng.random() < 0.5:
             ops.append(["pump"])
         c["ops"] = ops
@@ -717,7 +839,7 @@ def gen_cases(C, rng, n, thorough=False):
 
 
 def opname(o):
-    return o[0] if o[0] in ("pump", "wrongkey", "genuine") else "%s-%s" % (o[0], o[1])
+    return o[0] if o[0] in ("pump", "wrongkey", "genuine", "co") else "%s-%s" % (o[0], o[1])
 
 
 def nontrivial(case, out):
